@@ -18,6 +18,8 @@ import SkVerif.Lemmas.NaiveTop
 import SkVerif.Lemmas.Trend
 import SkVerif.Lemmas.History
 import SkVerif.Model.Adapter
+import SkVerif.Model.Exog
+import SkVerif.Model.Theta
 namespace SkVerif.C11
 open SkVerif SkVerif.Naive SkVerif.Lem.Naive SkVerif.History
 open SkVerif.Spec.Naive (window windowTimes meanOf sameSeason NormalEqs sse powers)
@@ -618,5 +620,123 @@ example : get (Adapter.thetaCtorOrig [("initial_level", "0"), ("sp", "1")]) "ini
   refine ⟨by decide, by decide⟩
 
 example : get (esCtor [("trend", "mul"), ("damped_trend", "T"), ("sp", "4")]) "damped_trend" = "T" := by decide
+
+/-! ## Exogenous data next to `y` are ignored by the naive forecaster (`fit(y, X)`, `_get_last_window` returns both windows) -/
+section Exog
+open SkVerif.Exog
+
+theorem getLastWindow_fst (y : List Val) (X : Option XRows) (origin : Int) (wl : Nat) (cutoff : Int) :
+    (getLastWindow y X origin wl cutoff).1 = lastWindow y origin wl cutoff := rfl
+
+theorem inSampleGoX_eq (st : Strategy) (sp wl : Nat) (y : List Val) (X : Option XRows) (origin : Int) (qs : List Int) (cut : Int) :
+    inSampleGoX st sp wl y X origin qs cut = inSampleGo st sp wl y origin qs cut := by
+  induction qs generalizing cut with
+  | nil => rfl
+  | cons q qs ih => simp only [inSampleGoX, inSampleGo, getLastWindow_fst, ih]; rfl
+
+theorem predictInSampleX_eq (st : Strategy) (sp wl : Nat) (y : List Val) (X : Option XRows) (origin : Int) (steps : List Int) :
+    predictInSampleX st sp wl y X origin steps = predictInSample st sp wl y origin steps := by
+  simp only [predictInSampleX, predictInSample, inSampleGoX_eq]; rfl
+
+theorem predictOutX_eq (st : Strategy) (sp wl : Nat) (y : List Val) (X : Option XRows) (origin : Int) (steps : List Int) :
+    predictOutX st sp wl y X origin steps = predictOut st sp wl y origin steps := by
+  simp only [predictOutX, predictOut, getLastWindow_fst]
+
+/-- whatever exogenous rows are stored next to `y` (any number of columns, any values, missing or not — also inside the last
+window), and whether or not future rows are handed to predict, `fit(y, X).predict(fh)` is `fit(y).predict(fh)`: every textbook
+theorem above therefore holds unchanged for forecasters fitted with exogenous data -/
+theorem naive_ignores_exog (X : Option XRows) (future : Bool) (st : Strategy) (sp : Int) (wl : Option Int) (y : List Val)
+    (origin : Int) (raw : FH.Raw) (rel : Bool) (hX : xMatches y X = true) :
+    fitPredictX X future st sp wl y origin raw rel = fitPredict st sp wl y origin raw rel := by
+  simp only [fitPredictX, fitPredict, hX, Bool.not_true, Bool.false_eq_true, ↓reduceIte, predictInSampleX_eq, predictOutX_eq]
+
+/-- exogenous rows that do not cover the time points of `y` are rejected by fit (ValueError), never used -/
+theorem naive_rejects_foreign_exog (X : Option XRows) (future : Bool) (st : Strategy) (sp : Int) (wl : Option Int) (y : List Val)
+    (origin : Int) (raw : FH.Raw) (rel : Bool) (hX : xMatches y X = false) :
+    fitPredictX X future st sp wl y origin raw rel = .error .value := by
+  simp [fitPredictX, hX]
+
+example : xMatches [some 1, some 2, some 3] (some [[none], [some 5], [none]]) = true := by decide
+example : fitPredictX (some [[none], [some 5], [none]]) false .mean 1 (some 2) [some 1, some 2, some 4] 0 (.ints [1]) true
+    = .ok [(3, some 3)] := by decide +kernel
+
+end Exog
+
+/-! ## ThetaForecaster._predict: point forecasts with and without prediction intervals, re-seasonalisation -/
+section ThetaPredict
+open SkVerif.Theta
+
+/-- the POINT forecasts returned together with prediction intervals are the point forecasts returned without them, for every
+wrapped model, drift, seasonal indices, option `deseasonalize`, horizon and interval width -/
+theorem theta_point_forecast_unaffected_by_intervals (sm : Int → Val) (n : Nat) (origin : Int) (raw : FH.Raw) (rel : Bool)
+    (drift seas : List Rat) (deseason : Bool) (err : Int → Rat) :
+    (Theta.predict sm n origin raw rel drift seas deseason true err).map Prod.fst
+      = (Theta.predict sm n origin raw rel drift seas deseason false err).map Prod.fst ∧
+    (Theta.predict sm n origin raw rel drift seas deseason false err).map Prod.fst
+      = Theta.points sm n origin raw rel drift seas deseason := by
+  unfold Theta.predict
+  cases h : Theta.points sm n origin raw rel drift seas deseason with
+  | error e => exact ⟨rfl, rfl⟩
+  | ok p => exact ⟨rfl, rfl⟩
+
+/-- without seasonal adjustment the point forecast is the wrapped model's forecast for the requested time point plus the drift -/
+theorem theta_plain_eq_ses_plus_drift (sm : Int → Val) (n : Nat) (origin : Int) (raw : FH.Raw) (rel : Bool)
+    (drift seas : List Rat) (ps : List (Int × Val)) (h : Trend.adapterPredict sm n origin raw rel = .ok ps) :
+    Theta.points sm n origin raw rel drift seas false = .ok (addDrift ps drift) := by
+  simp [Theta.points, h]
+
+theorem reseasonGo_contiguous (seas : List Rat) (origin t0 : Int) :
+    ∀ (ps : List (Int × Val)) (k : Nat), (∀ (i : Nat) (h : i < ps.length), ps[i].1 = t0 + (k : Int) + (i : Int)) →
+      reseasonGo seas (t0 - origin) k ps
+        = ps.map (fun p => (p.1, p.2.map (· * seas.getD (((p.1 - origin) % (seas.length : Int)).toNat) 1))) := by
+  intro ps
+  induction ps with
+  | nil => intro k _; rfl
+  | cons p ps ih =>
+    intro k hc
+    have h0 : p.1 = t0 + (k : Int) := by
+      have := hc 0 (by simp)
+      simp only [List.getElem_cons_zero] at this
+      simpa using this
+    have ht : ∀ (i : Nat) (h : i < ps.length), ps[i].1 = t0 + ((k + 1 : Nat) : Int) + (i : Int) := by
+      intro i hi
+      have := hc (i + 1) (by simpa using hi)
+      simp only [List.getElem_cons_succ] at this
+      rw [this]; push_cast; ring
+    have ha : alignIdx (t0 - origin) k seas.length = ((p.1 - origin) % (seas.length : Int)).toNat := by
+      unfold alignIdx; rw [h0]; congr 2; ring
+    simp only [reseasonGo, List.map_cons, ha, ih (k + 1) ht]
+
+/-- FULL clause (what the documentation says): every forecast is put back on the scale of the data with the seasonal index of
+its OWN time point, `seas[(t - origin) mod sp]`, for every horizon.  Proved for horizons that are a run of consecutive time points
+(`_partial`); for scattered horizons the code uses the index of the k-th time point after the first requested one (finding F5,
+`theta_scattered_horizon_misaligned` below). -/
+theorem theta_reseasonalised_own_season_partial (seas : List Rat) (origin : Int) (ps : List (Int × Val))
+    (hc : ∀ (i : Nat) (h : i < ps.length), ps[i].1 = (ps.headD (0, none)).1 + (i : Int)) :
+    reseason seas origin ps
+      = ps.map (fun p => (p.1, p.2.map (· * seas.getD (((p.1 - origin) % (seas.length : Int)).toNat) 1))) := by
+  cases ps with
+  | nil => rfl
+  | cons p ps =>
+    have := reseasonGo_contiguous seas origin p.1 (p :: ps) 0 (by
+      intro i hi; have := hc i hi; simpa using this)
+    simpa [reseason] using this
+
+/-- F5 witness: indices (2, 3) for two seasons, training series from label 0, forecasts for time points 5 and 7 (one step left
+out): the second forecast is multiplied by the index of time point 6 (2), not by that of time point 7 (3) -/
+theorem theta_scattered_horizon_misaligned :
+    reseason [2, 3] 0 [(5, some 1), (7, some 1)] = [(5, some 3), (7, some 2)] ∧
+    [(5, some 3), (7, some 2)] ≠
+      [((5 : Int), (some 1 : Val)), (7, some 1)].map (fun p => (p.1, p.2.map (· * ([2, 3] : List Rat).getD (((p.1 - 0) % 2).toNat) 1))) := by
+  refine ⟨by decide +kernel, by decide +kernel⟩
+
+example : ∀ (i : Nat) (h : i < [((5 : Int), (some 1 : Val)), (6, some 1)].length),
+    [((5 : Int), (some 1 : Val)), (6, some 1)][i].1 = (([((5 : Int), (some 1 : Val)), (6, some 1)]).headD (0, none)).1 + (i : Int) := by
+  intro i hi
+  match i, hi with
+  | 0, _ => rfl
+  | 1, _ => rfl
+
+end ThetaPredict
 
 end SkVerif.C11
